@@ -21,7 +21,8 @@ RULE = ("all call sequences up to length 4 over {option, multi_option, toggle} x
         "and a larger alphabet), plus seeded random sequences up to length 12 over names {a, b, ab}, three "
         "groups, short names {a, b, '', 'ab'}, env and metavar setters; distinct_nontrivial = distinct "
         "sequences containing a name collision, a letter collision, a short-name change or a MOVE "
-        "followed by a declaration")
+        "followed by a declaration; plus a scale part: the random sequences on parsers that already hold "
+        "15 ... 300 options")
 
 KIND = {"o": "OPT", "m": "MUL", "t": "TOG"}
 SMALL = [("d", k, g, n) for k in "omt" for g in (-1, 0) for n in (b"a", b"b")] + \
@@ -64,6 +65,13 @@ def gen(tier, seed, chunk, nch):
         if rng.random() < 0.2:
             calls.insert(rng.randrange(len(calls)), ("move",))
         cases.append({"calls": calls, "letters": True})
+    # scale: the same calls on a parser that already holds many options (17 ... 300 in up to 3 groups)
+    for _ in range((800 if tier == "quick" else 20000) // nch):
+        n = rng.choice([15, 16, 17, 18, 33, 64, 65, 100, 257, 300])
+        fill = [("d", rng.choice("omt"), rng.choice([-1, -1, 0, 1]), b"f%d" % i) for i in range(n)]
+        tail = [rng.choice(BIG) for _ in range(rng.randint(2, 8))]
+        cut = rng.choice([0, 0, 1, 2])
+        cases.append({"calls": tail[:cut] + fill + tail[cut:], "big": True, "scale": n})
     return cases
 
 
@@ -114,6 +122,16 @@ class Table:
         return "ok", "set"
 
 
+def _final_names(case):
+    names = sorted({c[3] for c in case["calls"] if c[0] == "d"})
+    if case.get("scale"):
+        # spelling every filler name would cost O(n^2) parses: the two ends and the middle stand for the rest
+        fillers = [x for x in names if x[:1] == b"f" and x[1:].isdigit()]
+        keep = {b"f0", b"f%d" % (case["scale"] - 1), b"f%d" % (case["scale"] // 2), b"f16", b"f17"}
+        names = [x for x in names if x not in fillers or x in keep]
+    return names
+
+
 def script(cid, case):
     L = ["CASE " + cid, "NEW " + hx(b"prog"), "GRPD 9"]
     slot = 0
@@ -146,7 +164,7 @@ def script(cid, case):
             L.append("MOVEA")
     L.append("OPTALL")
     # final phase: the parse lines are appended by the evaluation-independent rule below
-    names = sorted({c[3] for c in case["calls"] if c[0] == "d"})
+    names = _final_names(case)
     letters = sorted({c[1] for c in case["calls"] if c[0] == "s" and len(c[1]) == 1})
     L.append("PARSE A")
     for n in names:
@@ -173,6 +191,8 @@ def evaluate(case, lines, S):
         raise RuntimeError("driver output ended while waiting for %s" % prefix)
 
     addr = {}
+    if case.get("scale"):
+        S.counters["scale:parser-holds>=%d-options" % max(x for x in [15, 17, 65, 257] if x <= case["scale"])] += 1
     interesting = False
     moved_then_decl = False
     calls_txt = [_show_call(c) for c in case["calls"]]
@@ -252,7 +272,7 @@ def evaluate(case, lines, S):
     decl = {"opts": [{"kind": o["kind"], "name": o["name"], "short": o["short"], "env": None,
                       "default": None, "optional": True, "rev": False} for o in T.objs],
             "pos": None, "greedy": False}
-    names = sorted({c[3] for c in case["calls"] if c[0] == "d"})
+    names = _final_names(case)
     lts = sorted({c[1] for c in case["calls"] if c[0] == "s" and len(c[1]) == 1})
     vectors = [[]]
     for n in names:
@@ -298,7 +318,7 @@ def _show_call(c):
 
 
 def finish(run, S, tier):
-    need = ["decl:same-kind-same-group", "decl:same-kind-other-group", "decl:cross-kind-same-group",
+    need = ["scale:parser-holds>=17-options", "scale:parser-holds>=257-options", "decl:same-kind-same-group", "decl:same-kind-other-group", "decl:cross-kind-same-group",
             "decl:cross-kind-other-group", "parsers-with-letter-clash", "move-followed-by-declaration",
             "short-name:change", "short-name:same", "decl:same-kind-same-group:after-move"]
     for n in need:
